@@ -3,7 +3,7 @@
   (pkg/server/etcd/kv.go: Txn, Range, isCreate / isDelete / isUpdate / isCompact) and response shaping
   (pkg/server/etcd/backendshim.go: Create / Delete / Update / Get / List / Count / GetPartitions / Watch)
   over the sequential backend model (KB.Backend).  The code is modelled AS IT IS (after the repair of the
-  recognisers, /repo commits 4c41c58 and — the compaction probe — 2870609): the recognisers look at exactly the fields the Go recognisers look
+  recognisers, /repo commits 4c41c58, — the compaction probe — 2870609 and — `prev_kv` on the delete op — c09cadc): the recognisers look at exactly the fields the Go recognisers look
   at; every field etcd semantics depend on (op keys, range_end, put flags, range options …) is present in
   the request types, and is ignored here exactly where the Go code still ignores it (Range options).
 
@@ -150,7 +150,7 @@ def TxnResp.obs (t : TxnReq) (r : TxnResp) : TxnObs :=
   { ok := r.ok, writeRev := if r.wrote then some r.hdr else none,
     reads := readsOf (if r.ok then t.success else t.failure) r.resps }
 
-/-! ### the recognisers of kv.go (after commit 4c41c58: they accept only the shapes they execute) -/
+/-! ### the recognisers of kv.go (after commits 4c41c58, 2870609, c09cadc: they accept only the shapes they execute) -/
 
 /-- `isModCompareOn(c, key)`: `ModRevision(key) == x` on the single key `key` -/
 def Compare.isModOn (c : Compare) (key : Bytes) : Bool :=
@@ -168,10 +168,27 @@ def isCreate (t : TxnReq) : Option PutReq :=
   | [c], [], [.put p] => if c.isModOn p.key && c.int == 0 then some p else none
   | _, _, _ => none
 
+/-- `pointDelete(op)`: the delete op deletes exactly one key (empty `range_end`) and does NOT ask for `prev_kv`
+(/repo c09cadc: the supported delete shapes are answered with a range response, `prev_kv` would have to come back
+in a delete response) -/
+def DelReq.isPoint (d : DelReq) : Bool := d.rangeEnd.isEmpty && !d.prevKv
+
 /-- `isDelete` → (expected revision, key, guarded): (a) no compare, no failure op, success =
 [plain Get k, point delete k]; (b) one compare `mod(k) = rev` with `rev > 0`, failure = [plain Get k],
-success = [point delete k] (`pointDelete`: empty `range_end`). -/
+success = [point delete k] (`pointDelete`: empty `range_end`, no `prev_kv` — /repo c09cadc; before: `isDeleteOld`). -/
 def isDelete (t : TxnReq) : Option (Int × Bytes × Bool) :=
+  match t.compare, t.failure, t.success with
+  | [], [], [.range g, .del d] =>
+    if d.isPoint && g.isPlainGet d.key then some (0, d.key, false) else none
+  | [c], [.range g], [.del d] =>
+    if d.isPoint && c.isModOn d.key && decide (c.int > 0) && g.isPlainGet d.key
+    then some (c.int, d.key, true) else none
+  | _, _, _ => none
+
+/-- `isDelete` BEFORE /repo c09cadc (kept for the refutation `KB.C16.old_delete_prev_kv_executed`): `pointDelete`
+looked only at `range_end`, so both delete shapes were recognised — and executed as the plain delete, answered with
+a range response — also when the delete op asked for `prev_kv`. -/
+def isDeleteOld (t : TxnReq) : Option (Int × Bytes × Bool) :=
   match t.compare, t.failure, t.success with
   | [], [], [.range g, .del d] =>
     if d.rangeEnd.isEmpty && g.isPlainGet d.key then some (0, d.key, false) else none
@@ -244,6 +261,19 @@ def classifyOld (t : TxnReq) : Shape :=
       match isUpdate t with
       | some (rev, key, val, lease) => .update rev key val lease
       | none => if isCompactOld t then .compact else .unsupported
+
+/-- the `if` chain of `RPCServer.Txn` BEFORE /repo c09cadc (`isDeleteOld`: a delete op with `prev_kv` was a point
+delete); only for the refutation -/
+def classifyOld2 (t : TxnReq) : Shape :=
+  match isCreate t with
+  | some p => .create p
+  | none =>
+    match isDeleteOld t with
+    | some (rev, key, guarded) => .delete rev key guarded
+    | none =>
+      match isUpdate t with
+      | some (rev, key, val, lease) => .update rev key val lease
+      | none => if isCompact t then .compact else .unsupported
 
 /-! ### response shaping of backendshim.go -/
 
@@ -365,6 +395,12 @@ def shimTxnOld (c : Cfg) (s : BState) (t : TxnReq) : Except EErr TxnResp × BSta
   match backendCall (classifyOld t) with
   | some call => let (a, s') := runCall c s call; (shapeTxn (classifyOld t) a, s')
   | none => (shapeTxn (classifyOld t) (.error .other), s)
+
+/-- `RPCServer.Txn` BEFORE /repo c09cadc (`classifyOld2`); only for the refutation -/
+def shimTxnOld2 (c : Cfg) (s : BState) (t : TxnReq) : Except EErr TxnResp × BState :=
+  match backendCall (classifyOld2 t) with
+  | some call => let (a, s') := runCall c s call; (shapeTxn (classifyOld2 t) a, s')
+  | none => (shapeTxn (classifyOld2 t) (.error .other), s)
 
 /-! the three backendshim methods on the model (used by the lemmas; `shimTxn_cases` in KB.Lemmas.Etcd
 shows `shimTxn` is their `if` chain) -/
